@@ -16,11 +16,16 @@ one diagnostic layer per set, emitted as ODX and loaded by the real loader.  Per
     decode_response(response, request)), each on its own freshly loaded layer object; every result must equal the
     result of the same call made first on a fresh object (order, multiplicity and values) -- the cached prefix tree
     must not be changed by lookups.
+  * edit + refresh: for every kind of layer (base / ECU variant, functional group, protocol, ECU-SHARED-DATA, an ECU
+    variant inheriting everything from a base variant) the layer is used, then a service is dropped and/or the SID
+    constants of a service are changed on the loaded objects, Database.refresh() is called and every decode /
+    decode_response / service_groups answer must equal that of a database freshly loaded from the edited description.
 A third alphabet has sibling services with one SID told apart by a PHYS-CONST identifier which the responses echo.
 Oracle: odxmodel.refdispatch (three-valued, independent).  See the module docstring there.
 """
 from __future__ import annotations
 
+import copy
 import itertools
 import json
 import shutil
@@ -37,7 +42,7 @@ LEVEL = "model_checking"
 
 U8 = {"k": "STD", "base": "A_UINT32", "bits": 8}
 U16 = {"k": "STD", "base": "A_UINT32", "bits": 16}
-DOPS = [{"name": "u8", "dct": U8}, {"name": "u16", "dct": U16}]
+DOPS = [{"name": "u8", "dct": U8}, {"name": "u16", "dct": U16}, {"name": "u4", "dct": {"k": "STD", "base": "A_UINT32", "bits": 4}}]
 
 
 def cc(name: str, v: int) -> Dict[str, Any]:
@@ -57,10 +62,12 @@ def physc(name: str, dop: str, const: int) -> Dict[str, Any]:
     return {"t": "PHYS-CONST", "name": name, "dop": dop, "const": const}
 
 
-def val(name: str, dop: str, byte: Optional[int] = None) -> Dict[str, Any]:
+def val(name: str, dop: str, byte: Optional[int] = None, bit: Optional[int] = None) -> Dict[str, Any]:
     d: Dict[str, Any] = {"t": "VALUE", "name": name, "dop": dop}
     if byte is not None:
         d["byte"] = byte
+    if bit is not None:
+        d["bit"] = bit
     return d
 
 
@@ -84,6 +91,11 @@ RESPONSES: Dict[str, Dict[str, Any]] = {
     "nrA": {"kind": "NEG-RESPONSE", "params": [cc("sid", 0x7F), mrp("rsid", 0, 1)] + nrc([0x11, 0x12])},
     "nrB": {"kind": "NEG-RESPONSE", "params": [cc("sid", 0x7F), mrp("rsid", 0, 1)] + nrc([0x31])},
 }
+# responses of the "gap" shapes (a variable byte between two constants, listed AFTER them)
+RESPONSES.update({
+    "pr6Fg": {"kind": "POS-RESPONSE", "params": [cc("sid", 0x6F), ccn("tail", 0x03, 8, 2), val("y", "u8", 1)]},
+    "pr6Fe": {"kind": "POS-RESPONSE", "params": [cc("sid", 0x6F), mrp("echo", 1, 1)]},
+})
 GNRS: List[Tuple[str, Dict[str, Any]]] = [
     ("gnr1", {"kind": "GLOBAL-NEG-RESPONSE", "params": [cc("sid", 0x7F), mrp("rsid", 0, 1)] + nrc([0x31, 0x11])}),
     ("gnr2", {"kind": "GLOBAL-NEG-RESPONSE", "params": [cc("sid", 0x7F), val("rsid", "u8")] + nrc([0x12])}),
@@ -126,7 +138,17 @@ SHAPES.update({
 })
 PC_NAMES = ["P1001", "P1002", "P10b"]
 PC_ALPHABET = PC_NAMES + ["S22w", "S22F190"]
-VALUES = {"u8": [0x00, 0x01, 0x5A, 0xFF], "u16": [0x0000, 0x0102, 0xF190, 0xA55A]}
+# fourth alphabet: the constants of the request / response do not form one contiguous run -- a variable byte (or
+# nibble) lies between two constants and is listed after them; the constant prefix ends in front of the gap
+SHAPES.update({
+    "G2F": ([cc("sid", 0x2F), ccn("tail", 0x03, 8, 2), val("x", "u8", 1)], "pr6Fg", "nrA"),                          # 2F xx 03
+    "G2Fn": ([cc("sid", 0x2F), ccn("hi", 0x1, 4, 1, 4), ccn("tail", 0x03, 8, 2), val("n", "u4", 1, 0)], "pr6Fg", None),  # 2F 1n 03
+    "S2F00": ([cc("sid", 0x2F), cc("sub", 0x00)], "pr6Fe", "nrB"),                                                    # 2F 00
+    "S2Fb": ([cc("sid", 0x2F), val("x", "u8")], "pr6Fe", "nrA"),                                                      # 2F xx
+})
+GAP_NAMES = ["G2F", "G2Fn"]
+GAP_ALPHABET = GAP_NAMES + ["S2F00", "S2Fb"]
+VALUES = {"u8": [0x00, 0x01, 0x5A, 0xFF], "u16": [0x0000, 0x0102, 0xF190, 0xA55A], "u4": [0x0, 0x1, 0xA, 0xF]}
 RESP_VALUES = {"u8": [0x00, 0x5A]}
 
 
@@ -454,12 +476,15 @@ def check_layer(layer: Any, ref: refdispatch.RefLayer, shapes: List[str], ngnr: 
 Op = Tuple[str, bytes, Optional[bytes]]
 
 
-def seq_mode(nservices: int, ngnr: int, quick: bool) -> int:
-    """ops per service for the call-sequence exploration of a layer (0 = none)"""
+def seq_mode(nservices: int, ngnr: int, quick: bool, shapes: Optional[Tuple[str, ...]] = None) -> int:
+    """ops per service for the call-sequence exploration of a layer (0 = none); of the layers with 3 services only
+    one order per service set is taken (the order only permutes the candidates of a lookup)"""
+    if nservices == 3 and shapes is not None and list(shapes) != sorted(shapes, key=list(SHAPES).index):
+        return 0
     if nservices <= 2:
         if not quick:
             return 3
-        return 3 if ngnr == 0 else 0
+        return (3 if nservices == 1 else 2) if ngnr == 0 else 0
     return 2 if (not quick and ngnr == 0) else 0
 
 
@@ -546,6 +571,158 @@ def check_sequences(ref: refdispatch.RefLayer, shapes: List[str], ngnr: int, per
         part.count("sequence_layers_with_shared_messages")
 
 
+# ---------------------------------------------------------------------------------------------
+# edit + Database.refresh(): the dispatch structures of every kind of layer follow the description
+# ---------------------------------------------------------------------------------------------
+KINDS = ["BASE-VARIANT", "ECU-VARIANT", "FUNCTIONAL-GROUP", "PROTOCOL", "ECU-SHARED-DATA", "EV-inherits-BV"]
+REFRESH_ALPHABET = ["S10", "S10b", "S1001", "S22w", "S22F190"]  # (first parameter of request and response: 8-bit CODED-CONST)
+EDITS = ["drop-last", "move-first", "drop-last+move-first"]
+NEW_SID, NEW_RSID = 0x11, 0x51
+
+
+def refresh_confs(quick: bool) -> List[Tuple[Tuple[str, ...], int, str, str]]:
+    sets = [t for n in (1, 2) for t in itertools.permutations(REFRESH_ALPHABET, n)]
+    return [(t, g, k, e) for t in sets for g in ((0, 1) if quick else (0, 1, 2)) for k in KINDS for e in EDITS]
+
+
+def kind_db(spec: Dict[str, Any], kind: str) -> Tuple[Dict[str, Any], str, str]:
+    """-> (database spec, name of the layer that holds the services, name of the layer that is observed)"""
+    l = copy.deepcopy(spec)
+    if kind == "EV-inherits-BV":
+        l["name"] = "P0"
+        l["type"] = "BASE-VARIANT"
+        child = {"type": "ECU-VARIANT", "name": "L0", "parents": [{"layer": "P0"}]}
+        return {"containers": [{"name": "C", "layers": [l, child]}]}, "P0", "L0"
+    l["type"] = kind
+    db: Dict[str, Any] = {"containers": [{"name": "C", "layers": [l]}]}
+    if kind == "PROTOCOL":
+        l["comparam_spec"] = "CS"
+        db["comparam_specs"] = [{"name": "CS", "prot_stacks": []}]
+    return db, l["name"], l["name"]
+
+
+def edited_spec(spec: Dict[str, Any], edit: str) -> Dict[str, Any]:
+    s2 = copy.deepcopy(spec)
+    if "move-first" in edit:
+        first = s2["svcs"][0]
+        for m in s2["msgs"]:
+            if m["name"] == first["request"]:
+                m["params"][0]["value"] = NEW_SID
+            elif m["name"] == first["pos"][0]:
+                m["params"][0]["value"] = NEW_RSID
+    if "drop-last" in edit:
+        s2["svcs"].pop()
+    return s2
+
+
+def apply_edit(db: Any, holder: str, spec: Dict[str, Any], edit: str) -> None:
+    """the same edit on the loaded objects, followed by Database.refresh()"""
+    layer = db.diag_layers[holder]
+    if "move-first" in edit:
+        svc = layer.services[spec["svcs"][0]["name"]]
+        svc.request.parameters[0].coded_value = NEW_SID
+        svc.positive_responses[0].parameters[0].coded_value = NEW_RSID
+    if "drop-last" in edit:
+        last = spec["svcs"][-1]["name"]
+        raw = layer.diag_layer_raw
+        raw.diag_comms_raw[:] = [dc for dc in raw.diag_comms_raw if getattr(dc, "short_name", None) != last]
+    db.refresh()
+
+
+def refresh_messages(ref1: refdispatch.RefLayer, ref2: refdispatch.RefLayer, maxlen: int) -> Tuple[List[bytes], List[Tuple[str, bytes, bytes]]]:
+    alpha = sorted(set(byte_alphabet(ref1)) | set(byte_alphabet(ref2)))
+    msgs = {bytes(t) for n in range(0, maxlen + 1) for t in itertools.product(alpha, repeat=n)}
+    pairs: List[Tuple[str, bytes, bytes]] = []
+    for ref in (ref1, ref2):
+        rqs, rsps = own_messages(ref)
+        msgs.update(R for _, _, _, R in rqs)
+        msgs.update(P for _, _, _, P, _ in rsps)
+        if ref is ref2:
+            pairs = sorted({(svc, P, R) for svc, _, _, P, R in rsps})
+    return sorted(msgs), pairs
+
+
+def refresh_case(shapes: Tuple[str, ...], ngnr: int, kind: str, edit: str, what: str, M: bytes, R: Optional[bytes] = None,
+                 only: Optional[str] = None) -> Dict[str, Any]:
+    c = case_of(list(shapes), ngnr, "refresh", M, R, only)
+    c.update({"kind": kind, "edit": edit, "check": what})
+    return c
+
+
+def check_refresh(conf: Tuple[Tuple[str, ...], int, str, str], maxlen: int, part: Part, only_case: Optional[Dict[str, Any]] = None) -> None:
+    shapes, ngnr, kind, edit = conf
+    spec1 = layer_spec("L0", list(shapes), ngnr)
+    spec2 = edited_spec(spec1, edit)
+    ref1, ref2 = refdispatch.RefLayer(spec1), refdispatch.RefLayer(spec2)
+    dbspec, holder, seen = kind_db(spec1, kind)
+    db = emit.load_db(dbspec)
+    msgs, pairs = refresh_messages(ref1, ref2, maxlen)
+    tag = f"C06/refresh/{kind}"
+    part.count("refresh_runs")
+    # 1. use the freshly loaded layer (fills its caches); its answers are judged like everywhere else
+    layer = db.diag_layers[seen]
+    for M in msgs:
+        obs = observe(layer.decode, M)
+        part.count("evaluations")
+        for key, detail in judge(ref1, M, obs, "decode"):
+            report(part, key.replace("C06/", tag + "/before-edit/", 1), refresh_case(shapes, ngnr, kind, edit, "before", M), detail)
+    bad = groups_diff(layer, ref1)
+    if bad:
+        report(part, tag + "/before-edit/service_groups-differs", refresh_case(shapes, ngnr, kind, edit, "groups-before", b""), bad)
+    # 2. edit the description, refresh
+    try:
+        apply_edit(db, holder, spec1, edit)
+    except Exception as ex:  # noqa
+        report(part, f"{tag}/refresh-raises-{type(ex).__name__}", refresh_case(shapes, ngnr, kind, edit, "refresh", b""), str(ex)[:200])
+        return
+    layer = db.diag_layers[seen]
+    # 3. a database freshly loaded from the edited description
+    dbspec2, _, seen2 = kind_db(spec2, kind)
+    fresh = emit.load_db(dbspec2).diag_layers[seen2]
+    for M in msgs:
+        got, want = run_op(layer, ("decode", M, None)), run_op(fresh, ("decode", M, None))
+        part.count("evaluations")
+        part.count("refresh_calls")
+        if got != want:
+            report(part, tag + "/decode-differs-from-fresh-database", refresh_case(shapes, ngnr, kind, edit, "decode", M),
+                   f"{kind} layer, services {list(shapes)}, edit {edit}, refresh(): decode({M.hex()}) -> {got[0]} "
+                   f"{[(s, c) for s, c, _ in got[1]] if got[1] else ''}; freshly loaded edited description: {want[0]} "
+                   f"{[(s, c) for s, c, _ in want[1]] if want[1] else ''}")
+        obs = observe(layer.decode, M)
+        for key, detail in judge(ref2, M, obs, "decode"):
+            report(part, key.replace("C06/", tag + "/after-refresh/", 1), refresh_case(shapes, ngnr, kind, edit, "after", M), detail)
+    for svc, P, R in pairs:
+        got, want = run_op(layer, ("decode_response", P, R)), run_op(fresh, ("decode_response", P, R))
+        part.count("evaluations")
+        part.count("refresh_calls")
+        if got != want:
+            report(part, tag + "/decode_response-differs-from-fresh-database", refresh_case(shapes, ngnr, kind, edit, "decode_response", P, R, svc),
+                   f"{kind} layer, services {list(shapes)}, edit {edit}, refresh(): decode_response({P.hex()}, {R.hex()}) -> {got}; fresh: {want}")
+    bad = groups_diff(layer, ref2)
+    part.count("evaluations")
+    if bad:
+        report(part, tag + "/service_groups-stale", refresh_case(shapes, ngnr, kind, edit, "groups", b""), f"edit {edit}, refresh(): " + bad)
+    part.add("refresh_kinds", kind)
+    part.add("refresh_edits", edit)
+
+
+def refresh_unit_fn(unit: Tuple[str, int, List[Tuple[Tuple[str, ...], int, str, str]]]) -> Part:
+    _, maxlen, confs = unit
+    part = Part()
+    import odxtools.exceptions as oe
+    oe.strict_mode = True
+    with warnings.catch_warnings():
+        warnings.simplefilter("ignore")
+        for conf in confs:
+            check_refresh(conf, maxlen, part)
+    shutil.rmtree(emit.scratch_dir(), ignore_errors=True)
+    return part
+
+
+def any_unit_fn(unit: Any) -> Part:
+    return refresh_unit_fn(unit) if unit[0] == "refresh" else unit_fn(unit)
+
+
 def same_expect(a: Dict[str, Dict[str, Any]], b: Dict[str, Dict[str, Any]]) -> bool:
     keys = ("status", "own", "gnr", "required", "ambiguous")
     return set(a) == set(b) and all(a[s][k] == b[s][k] for s in a for k in keys)
@@ -614,6 +791,14 @@ def pc_sets(maxsize: int) -> List[Tuple[str, ...]]:
     return out
 
 
+def gap_sets(maxsize: int) -> List[Tuple[str, ...]]:
+    """all ordered sets over the fourth alphabet that contain at least one gap shape"""
+    out: List[Tuple[str, ...]] = []
+    for n in range(1, maxsize + 1):
+        out.extend(t for t in itertools.permutations(GAP_ALPHABET, n) if set(t) & set(GAP_NAMES))
+    return out
+
+
 def build(confs: List[Tuple[Tuple[str, ...], int]]) -> Tuple[Any, List[Dict[str, Any]]]:
     specs = [layer_spec(f"L{i}", list(shapes), ngnr) for i, (shapes, ngnr) in enumerate(confs)]
     db = emit.load_db({"containers": [{"name": "C", "layers": specs}]})
@@ -635,7 +820,7 @@ def unit_fn(unit: Tuple[int, List[Tuple[Tuple[str, ...], int]], bool, bool]) -> 
             check_layer(layer, ref, list(shapes), ngnr, maxlen, part, selftest=(selftest and i == 0))
             if selftest and i == 0:
                 part.count("reference_selftest_layers")
-            mode = seq_mode(len(shapes), ngnr, quick)
+            mode = seq_mode(len(shapes), ngnr, quick, tuple(shapes))
             if mode and not any(k.startswith("C06/prefix-tree/") for k in part.viol):
                 check_sequences(ref, list(shapes), ngnr, mode, part)
             for sh in shapes:
@@ -676,7 +861,7 @@ def samples(ctx: Ctx) -> None:
 def run(ctx: Ctx) -> None:
     maxset = 2 if ctx.quick else 3
     maxlen = 3 if ctx.quick else 4
-    sets = service_sets(maxset) + wide_sets(maxset) + pc_sets(maxset)
+    sets = service_sets(maxset) + wide_sets(maxset) + pc_sets(maxset) + gap_sets(maxset)
     confs = [(s, g) for s in sets for g in (0, 1, 2)]
     # big layers first, chunks sized by expected work (alphabet^maxlen grows with the number of services)
     confs.sort(key=lambda c: (-len(c[0]), c[1], c[0]))
@@ -693,10 +878,12 @@ def run(ctx: Ctx) -> None:
                                       "what": "leading constant = one 16 / 24 bit CODED-CONST, 4+4 and 4+12 bit splits"},
                   "third_alphabet": {"shapes": PC_ALPHABET, "sets": f"all ordered sets of 1..{maxset} containing one of {PC_NAMES}",
                                      "what": "siblings with the same SID told apart by a PHYS-CONST identifier, echoed by the responses"},
+                  "fourth_alphabet": {"shapes": GAP_ALPHABET, "sets": f"all ordered sets of 1..{maxset} containing one of {GAP_NAMES}",
+                                      "what": "a variable byte / nibble between two constants, listed after them (prefix ends at the gap)"},
                   "call_sequences": "all sequences of 3 calls over the op alphabet of a layer (per service: decode(request), decode(response), "
                                     "decode_response(response, request)), each sequence on its own freshly loaded layer object; "
-                                    + ("layers with <= 2 services and no GNR" if ctx.quick else
-                                       "layers with <= 2 services; layers with 3 services and no GNR with 2 ops per service"),
+                                    + ("layers with <= 2 services and no GNR (2 ops per service for 2 services)" if ctx.quick else
+                                       "layers with <= 2 services; layers with 3 services and no GNR (one order per service set) with 2 ops per service"),
                   "global_negative_responses": "0, 1 (with MATCHING-REQUEST-PARAM), 2 (second one without)",
                   "layers": len(confs), "message_length": f"all byte strings of length 0..{maxlen} over the layer's constants + 00, FF",
                   "own_encodings": {"request u8": VALUES["u8"], "request u16": VALUES["u16"], "response u8": RESP_VALUES["u8"], "nrc": "every listed value"},
@@ -713,15 +900,21 @@ def run(ctx: Ctx) -> None:
         "decode_response: only the service that was asked is demanded; other reported services are only checked against MUST-NOT",
         "call sequences: results are compared exactly (order, multiplicity, values) with the first call on a fresh layer object; "
         "for errors only the kind is compared",
+        "edit + refresh: the refreshed layer is compared exactly with a database freshly loaded from the edited description, and judged by the reference",
         "descriptions: whole-byte A_UINT32 constants/values, IDENTICAL compu methods; a request without any parameter is not in the alphabet",
     ]
-    pmap(ctx, unit_fn, units)
+    rconfs = refresh_confs(ctx.quick)
+    runits: List[Any] = [("refresh", 2 if ctx.quick else 3, rconfs[i:i + 30]) for i in range(0, len(rconfs), 30)]
+    ctx.bounds["refresh"] = {"layer_kinds": KINDS, "edits": EDITS, "service_sets": f"all ordered sets of 1..2 of {REFRESH_ALPHABET}",
+                             "gnrs": "0, 1" if ctx.quick else "0, 1, 2", "runs": len(rconfs),
+                             "messages": f"all byte strings of length <= {2 if ctx.quick else 3} over the constants of the old and the edited description + their own encodings"}
+    pmap(ctx, any_unit_fn, units + runits)
     canonical_witnesses(ctx)
     samples(ctx)
     ctx.counts["traces_validated_against_impl"] = ctx.counts.get("decode_calls", 0) + ctx.counts.get("decode_response_calls", 0)
     ctx.counts["states"] = ctx.counts.get("layers", 0)
     ctx.counts["transitions"] = ctx.counts.get("evaluations", 0)
-    ctx.guard("every service shape used", ctx.sets.get("shapes", set()) == set(SHAPE_NAMES) | set(WIDE_NAMES) | set(PC_NAMES))
+    ctx.guard("every service shape used", ctx.sets.get("shapes", set()) == set(SHAPE_NAMES) | set(WIDE_NAMES) | set(PC_NAMES) | set(GAP_ALPHABET))
     ctx.guard("all three GNR configurations used", ctx.sets.get("gnr_configs", set()) == {0, 1, 2})
     ctx.guard("decode both reported and refused messages", ctx.counts.get("decode_reports", 0) > 100 and ctx.counts.get("decode_errors", 0) > 100)
     ctx.guard("MUST, MAY and MUST-NOT services all seen", ctx.sets.get("status", set()) == {MUST, MAY, MUSTNOT})
@@ -731,6 +924,8 @@ def run(ctx: Ctx) -> None:
     ctx.guard("own responses demanded through their request > 100", ctx.counts.get("own_responses_must", 0) > 100)
     ctx.guard("call sequences explored > 1000, on layers whose services share messages too",
               ctx.counts.get("call_sequences", 0) > 1000 and ctx.counts.get("sequence_layers_with_shared_messages", 0) > 10)
+    ctx.guard("edit + refresh explored on every layer kind with every edit",
+              ctx.sets.get("refresh_kinds", set()) == set(KINDS) and ctx.sets.get("refresh_edits", set()) == set(EDITS))
     ctx.guard("own requests demanded > 100", ctx.counts.get("own_requests_must", 0) > 100)
 
 
@@ -748,6 +943,10 @@ def replay(case: Any) -> List[Tuple[str, str]]:
             layer._prefix_tree  # noqa
         except Exception as ex:  # noqa
             return [(f"C06/prefix-tree/raises-{type(ex).__name__}", str(ex)[:200])]
+        if case["op"] == "refresh":
+            part = Part()
+            check_refresh((tuple(shapes), ngnr, case["kind"], case["edit"]), max(2, len(case["msg"]) // 2), part)
+            return [(k, v[2]) for k, v in part.viol.items()]
         if case["op"] == "sequence":
             calls: List[Op] = [(a, bytes.fromhex(m), None if r is None else bytes.fromhex(r)) for a, m, r in case["calls"]]
             layers = fresh_layers(shapes, ngnr, 2)
